@@ -27,6 +27,9 @@ type Program struct {
 	fieldInit   map[types.Object]types.Object
 	globalInits map[*types.Var]ast.Expr
 	privAlloc   map[types.Object]bool
+	scanPosDone bool
+	scanPosOK   bool
+	scanPosWhy  string
 	walkChecked bool
 	walkWhy     string
 	entryClasses map[string][]bool
